@@ -7,31 +7,17 @@ Set Printing Width 100000000.
 Set Printing Depth 100000000.
 Fixpoint bs (l : list nat) : string := match l with [] => EmptyString | n :: r => String (Ascii.ascii_of_nat n) (bs r) end.
 Definition T_ (b : bool) : string := if b then "T" else "F".
-Definition t178 : pt := (mkPacket (mkPtok 1 "options" 1 0 0) (Some (mkPtok 3 "}" 17 0 49)) [(DOption (mkOptionDef (mkSpan (mkPtok 1 "options" 1 0 0) (mkPtok 3 "}" 4 0 9)) (mkPtok 1 "options" 1 0 0) (mkPtok 2 "{" 1 8 1) [(mkOptionDecl (mkSpan (mkPtok 42 "GoPackage" 2 4 2) (mkPtok 41 ";" 2 24 5)) (mkPtok 42 "GoPackage" 2 4 2) (mkPtok 4 "=" 2 14 3) (VString (mkSpan (mkPtok 31 """proto""" 2 16 4) (mkPtok 31 """proto""" 2 16 4)) (mkPtok 31 """proto""" 2 16 4)) (Some (mkPtok 41 ";" 2 24 5))); (mkOptionDecl (mkSpan (mkPtok 42 "StringPrefixLenType" 3 4 6) (mkPtok 20 "u8" 3 26 8)) (mkPtok 42 "StringPrefixLenType" 3 4 6) (mkPtok 4 "=" 3 24 7) (VType (mkSpan (mkPtok 20 "u8" 3 26 8) (mkPtok 20 "u8" 3 26 8)) (TyBasic (mkSpan (mkPtok 20 "u8" 3 26 8) (mkPtok 20 "u8" 3 26 8)) (mkBasicType (mkSpan (mkPtok 20 "u8" 3 26 8) (mkPtok 20 "u8" 3 26 8)) (mkPtok 20 "u8" 3 26 8)))) None)] (mkPtok 3 "}" 4 0 9))); (DMeta (mkMetaDef (mkSpan (mkPtok 37 "MetaData" 5 0 10) (mkPtok 3 "}" 6 0 13)) (mkPtok 37 "MetaData" 5 0 10) (mkPtok 42 "Fields" 5 9 11) (mkPtok 2 "{" 5 16 12) [] (mkPtok 3 "}" 6 0 13))); (DMeta (mkMetaDef (mkSpan (mkPtok 37 "MetaData" 7 0 14) (mkPtok 3 "}" 8 0 17)) (mkPtok 37 "MetaData" 7 0 14) (mkPtok 42 "M1" 7 9 15) (mkPtok 2 "{" 7 12 16) [] (mkPtok 3 "}" 8 0 17))); (DPacket (mkPacketDef (mkSpan (mkPtok 34 "root" 10 0 19) (mkPtok 3 "}" 17 0 49)) (Some (mkPtok 34 "root" 10 0 19)) (mkPtok 35 "packet" 10 5 20) (mkPtok 42 "Logon" 10 12 21) (mkPtok 2 "{" 10 18 22) [(mkFieldWithAttr (mkSpan (mkPtok 15 "string" 11 4 23) (mkPtok 40 "," 11 16 25)) [] (MetaField (mkSpan (mkPtok 15 "string" 11 4 23) (mkPtok 40 "," 11 16 25)) None (mkMetaDecl (mkSpan (mkPtok 15 "string" 11 4 23) (mkPtok 40 "," 11 16 25)) (TyDynamic (mkSpan (mkPtok 15 "string" 11 4 23) (mkPtok 15 "string" 11 4 23)) (mkDynamicString (mkSpan (mkPtok 15 "string" 11 4 23) (mkPtok 15 "string" 11 4 23)) (mkPtok 15 "string" 11 4 23))) (mkPtok 42 "note" 11 11 24) None (mkPtok 40 "," 11 16 25)))); (mkFieldWithAttr (mkSpan (mkPtok 32 "@rightPad" 12 4 27) (mkPtok 40 "," 13 18 35)) [(FAPadding (mkSpan (mkPtok 32 "@rightPad" 12 4 27) (mkPtok 6 ")" 12 20 30)) (mkPaddingAttr (mkSpan (mkPtok 32 "@rightPad" 12 4 27) (mkPtok 6 ")" 12 20 30)) (mkPtok 32 "@rightPad" 12 4 27) (mkPtok 8 "(" 12 14 28) (Some (mkPtok 33 "' '" 12 16 29)) (mkPtok 6 ")" 12 20 30)))] (MetaField (mkSpan (mkPtok 12 "char[" 13 4 31) (mkPtok 40 "," 13 18 35)) None (mkMetaDecl (mkSpan (mkPtok 12 "char[" 13 4 31) (mkPtok 40 "," 13 18 35)) (TyFixed (mkSpan (mkPtok 12 "char[" 13 4 31) (mkPtok 13 "]" 13 13 33)) (mkFixedString (mkSpan (mkPtok 12 "char[" 13 4 31) (mkPtok 13 "]" 13 13 33)) (mkPtok 12 "char[" 13 4 31) (mkPtok 30 "32" 13 10 32) (mkPtok 13 "]" 13 13 33))) (mkPtok 42 "ts" 13 15 34) None (mkPtok 40 "," 13 18 35)))); (mkFieldWithAttr (mkSpan (mkPtok 12 "char[" 14 4 36) (mkPtok 40 "," 14 25 41)) [] (MetaField (mkSpan (mkPtok 12 "char[" 14 4 36) (mkPtok 40 "," 14 25 41)) None (mkMetaDecl (mkSpan (mkPtok 12 "char[" 14 4 36) (mkPtok 40 "," 14 25 41)) (TyFixed (mkSpan (mkPtok 12 "char[" 14 4 36) (mkPtok 13 "]" 14 13 38)) (mkFixedString (mkSpan (mkPtok 12 "char[" 14 4 36) (mkPtok 13 "]" 14 13 38)) (mkPtok 12 "char[" 14 4 36) (mkPtok 30 "16" 14 10 37) (mkPtok 13 "]" 14 13 38))) (mkPtok 42 "side" 14 15 39) (Some (mkPtok 43 (string_of_bytes [96; 230; 182; 136; 230; 129; 175; 96]%N) 14 20 40)) (mkPtok 40 "," 14 25 41)))); (mkFieldWithAttr (mkSpan (mkPtok 26 "i32" 15 4 42) (mkPtok 40 "," 16 7 48)) [] (LengthField (mkSpan (mkPtok 26 "i32" 15 4 42) (mkPtok 40 "," 16 7 48)) (mkLengthFieldDecl (mkSpan (mkPtok 26 "i32" 15 4 42) (mkPtok 40 "," 16 7 48)) (Some (TyBasic (mkSpan (mkPtok 26 "i32" 15 4 42) (mkPtok 26 "i32" 15 4 42)) (mkBasicType (mkSpan (mkPtok 26 "i32" 15 4 42) (mkPtok 26 "i32" 15 4 42)) (mkPtok 26 "i32" 15 4 42)))) (mkPtok 42 "len" 15 8 43) (mkLengthOf (mkSpan (mkPtok 7 "@lengthOf(" 15 12 44) (mkPtok 6 ")" 15 28 46)) (mkPtok 7 "@lengthOf(" 15 12 44) (mkPtok 42 "side" 15 23 45) (mkPtok 6 ")" 15 28 46)) (Some (mkPtok 43 (string_of_bytes [96; 108; 105; 110; 101; 49; 10; 108; 105; 110; 101; 50; 96]%N) 15 30 47)) (mkPtok 40 "," 16 7 48))))] (mkPtok 3 "}" 17 0 49)))]).
-Eval vm_compute in ("<<<W178_alias_short>>>" ++ sh_escaped (render (rw_alias_short t178)) "").
-Eval vm_compute in ("<<<W178_alias_long>>>" ++ sh_escaped (render (rw_alias_long t178)) "").
-Eval vm_compute in ("<<<W178_alias_long_opts>>>" ++ sh_escaped (render (rw_alias_long_opts t178)) "").
-Eval vm_compute in ("<<<W178_zchar>>>" ++ sh_escaped (render (rw_zchar t178)) "").
-Eval vm_compute in ("<<<W178_drop_default_pad>>>" ++ sh_escaped (render (rw_drop_default_pad t178)) "").
-Eval vm_compute in ("<<<W178_add_default_pad>>>" ++ sh_escaped (render (rw_add_default_pad t178)) "").
-Eval vm_compute in ("<<<W178_prefix_attr>>>" ++ sh_escaped (render (rw_prefix_attr t178)) "").
-Eval vm_compute in ("<<<W178_default_options>>>" ++ sh_escaped (render (rw_default_options t178)) "").
-Eval vm_compute in ("<<<W178_expand_keys>>>" ++ sh_escaped (render (rw_expand_keys t178)) "").
-Eval vm_compute in ("<<<W178_inline_meta>>>" ++ sh_escaped (render (rw_inline_meta t178)) "").
-Eval vm_compute in ("<<<W178_seps_all>>>" ++ sh_escaped (render (rw_seps_all t178)) "").
-Eval vm_compute in ("<<<W178_seps_none>>>" ++ sh_escaped (render (rw_seps_none t178)) "").
-Eval vm_compute in ("<<<W178_drop_docs>>>" ++ sh_escaped (render (rw_drop_docs t178)) "").
-Definition t218 : pt := (mkPacket (mkPtok 35 "packet" 1 0 0) (Some (mkPtok 3 "}" 57 0 188)) [(DPacket (mkPacketDef (mkSpan (mkPtok 35 "packet" 1 0 0) (mkPtok 3 "}" 18 0 62)) None (mkPtok 35 "packet" 1 0 0) (mkPtok 42 "Trade" 1 7 1) (mkPtok 2 "{" 1 13 2) [(mkFieldWithAttr (mkSpan (mkPtok 9 "@tag(" 2 4 3) (mkPtok 40 "," 2 21 7)) [(FATag (mkSpan (mkPtok 9 "@tag(" 2 4 3) (mkPtok 6 ")" 2 13 5)) (mkTagAttr (mkSpan (mkPtok 9 "@tag(" 2 4 3) (mkPtok 6 ")" 2 13 5)) (mkPtok 9 "@tag(" 2 4 3) (mkPtok 30 "49" 2 10 4) (mkPtok 6 ")" 2 13 5)))] (ObjectField (mkSpan (mkPtok 42 "Logon" 2 15 6) (mkPtok 40 "," 2 21 7)) None (mkPtok 42 "Logon" 2 15 6) None None (mkPtok 40 "," 2 21 7))); (mkFieldWithAttr (mkSpan (mkPtok 42 "Block" 3 4 8) (mkPtok 40 "," 9 6 26)) [] (InerObjectField (mkSpan (mkPtok 42 "Block" 3 4 8) (mkPtok 40 "," 9 6 26)) None (InerObjectDecl (mkSpan (mkPtok 42 "Block" 3 4 8) (mkPtok 3 "}" 9 4 25)) (mkPtok 42 "Block" 3 4 8) (mkPtok 2 "{" 3 10 9) [(InerObjectField (mkSpan (mkPtok 36 "repeat" 4 8 10) (mkPtok 40 "," 7 10 21)) (Some (mkPtok 36 "repeat" 4 8 10)) (InerObjectDecl (mkSpan (mkPtok 42 "Item" 4 15 11) (mkPtok 3 "}" 7 8 20)) (mkPtok 42 "Item" 4 15 11) (mkPtok 2 "{" 4 20 12) [(MetaField (mkSpan (mkPtok 15 "string" 5 12 13) (mkPtok 40 "," 5 23 15)) None (mkMetaDecl (mkSpan (mkPtok 15 "string" 5 12 13) (mkPtok 40 "," 5 23 15)) (TyDynamic (mkSpan (mkPtok 15 "string" 5 12 13) (mkPtok 15 "string" 5 12 13)) (mkDynamicString (mkSpan (mkPtok 15 "string" 5 12 13) (mkPtok 15 "string" 5 12 13)) (mkPtok 15 "string" 5 12 13))) (mkPtok 42 "seq" 5 19 14) None (mkPtok 40 "," 5 23 15))); (MetaField (mkSpan (mkPtok 36 "repeat" 6 12 16) (mkPtok 40 "," 6 33 19)) (Some (mkPtok 36 "repeat" 6 12 16)) (mkMetaDecl (mkSpan (mkPtok 23 "uint64" 6 19 17) (mkPtok 40 "," 6 33 19)) (TyBasic (mkSpan (mkPtok 23 "uint64" 6 19 17) (mkPtok 23 "uint64" 6 19 17)) (mkBasicType (mkSpan (mkPtok 23 "uint64" 6 19 17) (mkPtok 23 "uint64" 6 19 17)) (mkPtok 23 "uint64" 6 19 17))) (mkPtok 42 "ref_id" 6 26 18) None (mkPtok 40 "," 6 33 19)))] (mkPtok 3 "}" 7 8 20)) (mkPtok 40 "," 7 10 21)); (MetaField (mkSpan (mkPtok 22 "uint32" 8 8 22) (mkPtok 40 "," 8 20 24)) None (mkMetaDecl (mkSpan (mkPtok 22 "uint32" 8 8 22) (mkPtok 40 "," 8 20 24)) (TyBasic (mkSpan (mkPtok 22 "uint32" 8 8 22) (mkPtok 22 "uint32" 8 8 22)) (mkBasicType (mkSpan (mkPtok 22 "uint32" 8 8 22) (mkPtok 22 "uint32" 8 8 22)) (mkPtok 22 "uint32" 8 8 22))) (mkPtok 42 "user" 8 15 23) None (mkPtok 40 "," 8 20 24)))] (mkPtok 3 "}" 9 4 25)) (mkPtok 40 "," 9 6 26))); (mkFieldWithAttr (mkSpan (mkPtok 21 "u16" 10 4 27) (mkPtok 40 "," 10 17 29)) [] (MetaField (mkSpan (mkPtok 21 "u16" 10 4 27) (mkPtok 40 "," 10 17 29)) None (mkMetaDecl (mkSpan (mkPtok 21 "u16" 10 4 27) (mkPtok 40 "," 10 17 29)) (TyBasic (mkSpan (mkPtok 21 "u16" 10 4 27) (mkPtok 21 "u16" 10 4 27)) (mkBasicType (mkSpan (mkPtok 21 "u16" 10 4 27) (mkPtok 21 "u16" 10 4 27)) (mkPtok 21 "u16" 10 4 27))) (mkPtok 42 "MsgType_" 10 8 28) None (mkPtok 40 "," 10 17 29)))); (mkFieldWithAttr (mkSpan (mkPtok 38 "match" 11 4 30) (mkPtok 40 "," 16 6 55)) [] (MatchField (mkSpan (mkPtok 38 "match" 11 4 30) (mkPtok 40 "," 16 6 55)) (mkMatchFieldDecl (mkSpan (mkPtok 38 "match" 11 4 30) (mkPtok 3 "}" 16 4 54)) (mkPtok 38 "match" 11 4 30) (mkPtok 42 "MsgType_" 11 10 31) (mkPtok 17 "as" 11 19 32) (mkPtok 42 "Body" 11 22 33) (mkPtok 2 "{" 11 27 34) [(mkMatchPair (mkSpan (mkPtok 30 "2" 12 8 35) (mkPtok 40 "," 12 18 38)) (MKDigits (mkPtok 30 "2" 12 8 35)) (mkPtok 39 ":" 12 10 36) (mkPtok 42 "Logon" 12 12 37) (Some (mkPtok 40 "," 12 18 38))); (mkMatchPair (mkSpan (mkPtok 30 "5" 13 8 39) (mkPtok 40 "," 13 18 42)) (MKDigits (mkPtok 30 "5" 13 8 39)) (mkPtok 39 ":" 13 10 40) (mkPtok 42 "Logon" 13 12 41) (Some (mkPtok 40 "," 13 18 42))); (mkMatchPair (mkSpan (mkPtok 18 "[" 14 8 43) (mkPtok 42 "Logon" 14 20 49)) (MKList (mkKeyList (mkSpan (mkPtok 18 "[" 14 8 43) (mkPtok 13 "]" 14 16 47)) (mkPtok 18 "[" 14 8 43) (mkPtok 30 "8" 14 10 44) [((mkPtok 40 "," 14 12 45), (mkPtok 30 "3" 14 14 46))] (mkPtok 13 "]" 14 16 47))) (mkPtok 39 ":" 14 18 48) (mkPtok 42 "Logon" 14 20 49) None); (mkMatchPair (mkSpan (mkPtok 30 "34" 15 8 50) (mkPtok 40 "," 15 19 53)) (MKDigits (mkPtok 30 "34" 15 8 50)) (mkPtok 39 ":" 15 11 51) (mkPtok 42 "Logon" 15 13 52) (Some (mkPtok 40 "," 15 19 53)))] (mkPtok 3 "}" 16 4 54)) (mkPtok 40 "," 16 6 55))); (mkFieldWithAttr (mkSpan (mkPtok 9 "@tag(" 17 4 56) (mkPtok 40 "," 17 24 61)) [(FATag (mkSpan (mkPtok 9 "@tag(" 17 4 56) (mkPtok 6 ")" 17 12 58)) (mkTagAttr (mkSpan (mkPtok 9 "@tag(" 17 4 56) (mkPtok 6 ")" 17 12 58)) (mkPtok 9 "@tag(" 17 4 56) (mkPtok 30 "1" 17 10 57) (mkPtok 6 ")" 17 12 58)))] (MetaField (mkSpan (mkPtok 29 "f64" 17 14 59) (mkPtok 40 "," 17 24 61)) None (mkMetaDecl (mkSpan (mkPtok 29 "f64" 17 14 59) (mkPtok 40 "," 17 24 61)) (TyBasic (mkSpan (mkPtok 29 "f64" 17 14 59) (mkPtok 29 "f64" 17 14 59)) (mkBasicType (mkSpan (mkPtok 29 "f64" 17 14 59) (mkPtok 29 "f64" 17 14 59)) (mkPtok 29 "f64" 17 14 59))) (mkPtok 42 "flags" 17 18 60) None (mkPtok 40 "," 17 24 61))))] (mkPtok 3 "}" 18 0 62))); (DPacket (mkPacketDef (mkSpan (mkPtok 34 "root" 19 0 63) (mkPtok 3 "}" 32 0 105)) (Some (mkPtok 34 "root" 19 0 63)) (mkPtok 35 "packet" 19 5 64) (mkPtok 42 "Snapshot" 19 12 65) (mkPtok 2 "{" 19 21 66) [(mkFieldWithAttr (mkSpan (mkPtok 15 "string" 20 4 67) (mkPtok 40 "," 21 7 70)) [] (MetaField (mkSpan (mkPtok 15 "string" 20 4 67) (mkPtok 40 "," 21 7 70)) None (mkMetaDecl (mkSpan (mkPtok 15 "string" 20 4 67) (mkPtok 40 "," 21 7 70)) (TyDynamic (mkSpan (mkPtok 15 "string" 20 4 67) (mkPtok 15 "string" 20 4 67)) (mkDynamicString (mkSpan (mkPtok 15 "string" 20 4 67) (mkPtok 15 "string" 20 4 67)) (mkPtok 15 "string" 20 4 67))) (mkPtok 42 "msg_type" 20 11 68) (Some (mkPtok 43 (string_of_bytes [96; 108; 105; 110; 101; 49; 10; 108; 105; 110; 101; 50; 96]%N) 20 20 69)) (mkPtok 40 "," 21 7 70)))); (mkFieldWithAttr (mkSpan (mkPtok 9 "@tag(" 22 4 72) (mkPtok 40 "," 23 13 77)) [(FATag (mkSpan (mkPtok 9 "@tag(" 22 4 72) (mkPtok 6 ")" 22 12 74)) (mkTagAttr (mkSpan (mkPtok 9 "@tag(" 22 4 72) (mkPtok 6 ")" 22 12 74)) (mkPtok 9 "@tag(" 22 4 72) (mkPtok 30 "1" 22 10 73) (mkPtok 6 ")" 22 12 74)))] (MetaField (mkSpan (mkPtok 23 "u64" 23 4 75) (mkPtok 40 "," 23 13 77)) None (mkMetaDecl (mkSpan (mkPtok 23 "u64" 23 4 75) (mkPtok 40 "," 23 13 77)) (TyBasic (mkSpan (mkPtok 23 "u64" 23 4 75) (mkPtok 23 "u64" 23 4 75)) (mkBasicType (mkSpan (mkPtok 23 "u64" 23 4 75) (mkPtok 23 "u64" 23 4 75)) (mkPtok 23 "u64" 23 4 75))) (mkPtok 42 "code" 23 8 76) None (mkPtok 40 "," 23 13 77)))); (mkFieldWithAttr (mkSpan (mkPtok 21 "u16" 24 4 79) (mkPtok 40 "," 24 20 82)) [] (MetaField (mkSpan (mkPtok 21 "u16" 24 4 79) (mkPtok 40 "," 24 20 82)) None (mkMetaDecl (mkSpan (mkPtok 21 "u16" 24 4 79) (mkPtok 40 "," 24 20 82)) (TyBasic (mkSpan (mkPtok 21 "u16" 24 4 79) (mkPtok 21 "u16" 24 4 79)) (mkBasicType (mkSpan (mkPtok 21 "u16" 24 4 79) (mkPtok 21 "u16" 24 4 79)) (mkPtok 21 "u16" 24 4 79))) (mkPtok 42 "MsgType_" 24 8 80) (Some (mkPtok 43 "``" 24 17 81)) (mkPtok 40 "," 24 20 82)))); (mkFieldWithAttr (mkSpan (mkPtok 38 "match" 25 4 83) (mkPtok 40 "," 27 6 93)) [] (MatchField (mkSpan (mkPtok 38 "match" 25 4 83) (mkPtok 40 "," 27 6 93)) (mkMatchFieldDecl (mkSpan (mkPtok 38 "match" 25 4 83) (mkPtok 3 "}" 27 4 92)) (mkPtok 38 "match" 25 4 83) (mkPtok 42 "MsgType_" 25 10 84) (mkPtok 17 "as" 25 19 85) (mkPtok 42 "Data" 25 22 86) (mkPtok 2 "{" 25 27 87) [(mkMatchPair (mkSpan (mkPtok 30 "1" 26 8 88) (mkPtok 40 "," 26 19 91)) (MKDigits (mkPtok 30 "1" 26 8 88)) (mkPtok 39 ":" 26 10 89) (mkPtok 42 "Cancel" 26 12 90) (Some (mkPtok 40 "," 26 19 91)))] (mkPtok 3 "}" 27 4 92)) (mkPtok 40 "," 27 6 93))); (mkFieldWithAttr (mkSpan (mkPtok 29 "float64" 28 4 94) (mkPtok 40 "," 29 7 97)) [] (MetaField (mkSpan (mkPtok 29 "float64" 28 4 94) (mkPtok 40 "," 29 7 97)) None (mkMetaDecl (mkSpan (mkPtok 29 "float64" 28 4 94) (mkPtok 40 "," 29 7 97)) (TyBasic (mkSpan (mkPtok 29 "float64" 28 4 94) (mkPtok 29 "float64" 28 4 94)) (mkBasicType (mkSpan (mkPtok 29 "float64" 28 4 94) (mkPtok 29 "float64" 28 4 94)) (mkPtok 29 "float64" 28 4 94))) (mkPtok 42 "account" 28 12 95) (Some (mkPtok 43 (string_of_bytes [96; 108; 105; 110; 101; 49; 10; 108; 105; 110; 101; 50; 96]%N) 28 20 96)) (mkPtok 40 "," 29 7 97)))); (mkFieldWithAttr (mkSpan (mkPtok 15 "string" 30 4 98) (mkPtok 40 "," 30 15 100)) [] (MetaField (mkSpan (mkPtok 15 "string" 30 4 98) (mkPtok 40 "," 30 15 100)) None (mkMetaDecl (mkSpan (mkPtok 15 "string" 30 4 98) (mkPtok 40 "," 30 15 100)) (TyDynamic (mkSpan (mkPtok 15 "string" 30 4 98) (mkPtok 15 "string" 30 4 98)) (mkDynamicString (mkSpan (mkPtok 15 "string" 30 4 98) (mkPtok 15 "string" 30 4 98)) (mkPtok 15 "string" 30 4 98))) (mkPtok 42 "qty" 30 11 99) None (mkPtok 40 "," 30 15 100)))); (mkFieldWithAttr (mkSpan (mkPtok 15 "string" 31 4 101) (mkPtok 40 "," 31 17 103)) [] (MetaField (mkSpan (mkPtok 15 "string" 31 4 101) (mkPtok 40 "," 31 17 103)) None (mkMetaDecl (mkSpan (mkPtok 15 "string" 31 4 101) (mkPtok 40 "," 31 17 103)) (TyDynamic (mkSpan (mkPtok 15 "string" 31 4 101) (mkPtok 15 "string" 31 4 101)) (mkDynamicString (mkSpan (mkPtok 15 "string" 31 4 101) (mkPtok 15 "string" 31 4 101)) (mkPtok 15 "string" 31 4 101))) (mkPtok 42 "flags" 31 11 102) None (mkPtok 40 "," 31 17 103))))] (mkPtok 3 "}" 32 0 105))); (DPacket (mkPacketDef (mkSpan (mkPtok 35 "packet" 33 0 106) (mkPtok 3 "}" 40 0 138)) None (mkPtok 35 "packet" 33 0 106) (mkPtok 42 "Logon" 33 7 107) (mkPtok 2 "{" 33 13 108) [(mkFieldWithAttr (mkSpan (mkPtok 9 "@tag(" 34 4 109) (mkPtok 40 "," 35 23 115)) [(FATag (mkSpan (mkPtok 9 "@tag(" 34 4 109) (mkPtok 6 ")" 34 12 111)) (mkTagAttr (mkSpan (mkPtok 9 "@tag(" 34 4 109) (mkPtok 6 ")" 34 12 111)) (mkPtok 9 "@tag(" 34 4 109) (mkPtok 30 "1" 34 10 110) (mkPtok 6 ")" 34 12 111)))] (MetaField (mkSpan (mkPtok 36 "repeat" 35 4 112) (mkPtok 40 "," 35 23 115)) (Some (mkPtok 36 "repeat" 35 4 112)) (mkMetaDecl (mkSpan (mkPtok 16 "char[]" 35 11 113) (mkPtok 40 "," 35 23 115)) (TyDynamic (mkSpan (mkPtok 16 "char[]" 35 11 113) (mkPtok 16 "char[]" 35 11 113)) (mkDynamicString (mkSpan (mkPtok 16 "char[]" 35 11 113) (mkPtok 16 "char[]" 35 11 113)) (mkPtok 16 "char[]" 35 11 113))) (mkPtok 42 "kind" 35 18 114) None (mkPtok 40 "," 35 23 115)))); (mkFieldWithAttr (mkSpan (mkPtok 29 "float64" 36 4 116) (mkPtok 40 "," 36 20 118)) [] (MetaField (mkSpan (mkPtok 29 "float64" 36 4 116) (mkPtok 40 "," 36 20 118)) None (mkMetaDecl (mkSpan (mkPtok 29 "float64" 36 4 116) (mkPtok 40 "," 36 20 118)) (TyBasic (mkSpan (mkPtok 29 "float64" 36 4 116) (mkPtok 29 "float64" 36 4 116)) (mkBasicType (mkSpan (mkPtok 29 "float64" 36 4 116) (mkPtok 29 "float64" 36 4 116)) (mkPtok 29 "float64" 36 4 116))) (mkPtok 42 "account" 36 12 117) None (mkPtok 40 "," 36 20 118)))); (mkFieldWithAttr (mkSpan (mkPtok 9 "@tag(" 37 4 119) (mkPtok 40 "," 37 28 125)) [(FATag (mkSpan (mkPtok 9 "@tag(" 37 4 119) (mkPtok 6 ")" 37 12 121)) (mkTagAttr (mkSpan (mkPtok 9 "@tag(" 37 4 119) (mkPtok 6 ")" 37 12 121)) (mkPtok 9 "@tag(" 37 4 119) (mkPtok 30 "7" 37 10 120) (mkPtok 6 ")" 37 12 121)))] (MetaField (mkSpan (mkPtok 22 "u32" 37 14 122) (mkPtok 40 "," 37 28 125)) None (mkMetaDecl (mkSpan (mkPtok 22 "u32" 37 14 122) (mkPtok 40 "," 37 28 125)) (TyBasic (mkSpan (mkPtok 22 "u32" 37 14 122) (mkPtok 22 "u32" 37 14 122)) (mkBasicType (mkSpan (mkPtok 22 "u32" 37 14 122) (mkPtok 22 "u32" 37 14 122)) (mkPtok 22 "u32" 37 14 122))) (mkPtok 42 "code" 37 18 123) (Some (mkPtok 43 (string_of_bytes [96; 230; 182; 136; 230; 129; 175; 96]%N) 37 23 124)) (mkPtok 40 "," 37 28 125)))); (mkFieldWithAttr (mkSpan (mkPtok 29 "f64" 38 4 126) (mkPtok 40 "," 38 11 128)) [] (MetaField (mkSpan (mkPtok 29 "f64" 38 4 126) (mkPtok 40 "," 38 11 128)) None (mkMetaDecl (mkSpan (mkPtok 29 "f64" 38 4 126) (mkPtok 40 "," 38 11 128)) (TyBasic (mkSpan (mkPtok 29 "f64" 38 4 126) (mkPtok 29 "f64" 38 4 126)) (mkBasicType (mkSpan (mkPtok 29 "f64" 38 4 126) (mkPtok 29 "f64" 38 4 126)) (mkPtok 29 "f64" 38 4 126))) (mkPtok 42 "ts" 38 8 127) None (mkPtok 40 "," 38 11 128)))); (mkFieldWithAttr (mkSpan (mkPtok 32 "@rightPad" 39 4 129) (mkPtok 40 "," 39 41 137)) [(FAPadding (mkSpan (mkPtok 32 "@rightPad" 39 4 129) (mkPtok 6 ")" 39 23 132)) (mkPaddingAttr (mkSpan (mkPtok 32 "@rightPad" 39 4 129) (mkPtok 6 ")" 39 23 132)) (mkPtok 32 "@rightPad" 39 4 129) (mkPtok 8 "(" 39 14 130) (Some (mkPtok 33 "'\x00'" 39 16 131)) (mkPtok 6 ")" 39 23 132)))] (MetaField (mkSpan (mkPtok 12 "char[" 39 25 133) (mkPtok 40 "," 39 41 137)) None (mkMetaDecl (mkSpan (mkPtok 12 "char[" 39 25 133) (mkPtok 40 "," 39 41 137)) (TyFixed (mkSpan (mkPtok 12 "char[" 39 25 133) (mkPtok 13 "]" 39 33 135)) (mkFixedString (mkSpan (mkPtok 12 "char[" 39 25 133) (mkPtok 13 "]" 39 33 135)) (mkPtok 12 "char[" 39 25 133) (mkPtok 30 "8" 39 31 134) (mkPtok 13 "]" 39 33 135))) (mkPtok 42 "price" 39 35 136) None (mkPtok 40 "," 39 41 137))))] (mkPtok 3 "}" 40 0 138))); (DPacket (mkPacketDef (mkSpan (mkPtok 35 "packet" 41 0 139) (mkPtok 3 "}" 53 0 177)) None (mkPtok 35 "packet" 41 0 139) (mkPtok 42 "Cancel" 41 7 140) (mkPtok 2 "{" 41 14 141) [(mkFieldWithAttr (mkSpan (mkPtok 42 "Item" 42 4 142) (mkPtok 40 "," 50 6 167)) [] (InerObjectField (mkSpan (mkPtok 42 "Item" 42 4 142) (mkPtok 40 "," 50 6 167)) None (InerObjectDecl (mkSpan (mkPtok 42 "Item" 42 4 142) (mkPtok 3 "}" 50 4 166)) (mkPtok 42 "Item" 42 4 142) (mkPtok 2 "{" 42 9 143) [(InerObjectField (mkSpan (mkPtok 36 "repeat" 43 8 144) (mkPtok 40 "," 47 10 159)) (Some (mkPtok 36 "repeat" 43 8 144)) (InerObjectDecl (mkSpan (mkPtok 42 "Hdr" 43 15 145) (mkPtok 3 "}" 47 8 158)) (mkPtok 42 "Hdr" 43 15 145) (mkPtok 2 "{" 43 19 146) [(MetaField (mkSpan (mkPtok 14 "zchar[" 44 12 147) (mkPtok 40 "," 44 30 151)) None (mkMetaDecl (mkSpan (mkPtok 14 "zchar[" 44 12 147) (mkPtok 40 "," 44 30 151)) (TyFixed (mkSpan (mkPtok 14 "zchar[" 44 12 147) (mkPtok 13 "]" 44 22 149)) (mkFixedString (mkSpan (mkPtok 14 "zchar[" 44 12 147) (mkPtok 13 "]" 44 22 149)) (mkPtok 14 "zchar[" 44 12 147) (mkPtok 30 "32" 44 19 148) (mkPtok 13 "]" 44 22 149))) (mkPtok 42 "venue" 44 24 150) None (mkPtok 40 "," 44 30 151))); (MetaField (mkSpan (mkPtok 22 "u32" 45 12 152) (mkPtok 40 "," 45 21 154)) None (mkMetaDecl (mkSpan (mkPtok 22 "u32" 45 12 152) (mkPtok 40 "," 45 21 154)) (TyBasic (mkSpan (mkPtok 22 "u32" 45 12 152) (mkPtok 22 "u32" 45 12 152)) (mkBasicType (mkSpan (mkPtok 22 "u32" 45 12 152) (mkPtok 22 "u32" 45 12 152)) (mkPtok 22 "u32" 45 12 152))) (mkPtok 42 "note" 45 16 153) None (mkPtok 40 "," 45 21 154))); (MetaField (mkSpan (mkPtok 15 "string" 46 12 155) (mkPtok 40 "," 46 24 157)) None (mkMetaDecl (mkSpan (mkPtok 15 "string" 46 12 155) (mkPtok 40 "," 46 24 157)) (TyDynamic (mkSpan (mkPtok 15 "string" 46 12 155) (mkPtok 15 "string" 46 12 155)) (mkDynamicString (mkSpan (mkPtok 15 "string" 46 12 155) (mkPtok 15 "string" 46 12 155)) (mkPtok 15 "string" 46 12 155))) (mkPtok 42 "code" 46 19 156) None (mkPtok 40 "," 46 24 157)))] (mkPtok 3 "}" 47 8 158)) (mkPtok 40 "," 47 10 159)); (MetaField (mkSpan (mkPtok 20 "u8" 48 8 160) (mkPtok 40 "," 48 18 162)) None (mkMetaDecl (mkSpan (mkPtok 20 "u8" 48 8 160) (mkPtok 40 "," 48 18 162)) (TyBasic (mkSpan (mkPtok 20 "u8" 48 8 160) (mkPtok 20 "u8" 48 8 160)) (mkBasicType (mkSpan (mkPtok 20 "u8" 48 8 160) (mkPtok 20 "u8" 48 8 160)) (mkPtok 20 "u8" 48 8 160))) (mkPtok 42 "ref_id" 48 11 161) None (mkPtok 40 "," 48 18 162))); (MetaField (mkSpan (mkPtok 29 "f64" 49 8 163) (mkPtok 40 "," 49 19 165)) None (mkMetaDecl (mkSpan (mkPtok 29 "f64" 49 8 163) (mkPtok 40 "," 49 19 165)) (TyBasic (mkSpan (mkPtok 29 "f64" 49 8 163) (mkPtok 29 "f64" 49 8 163)) (mkBasicType (mkSpan (mkPtok 29 "f64" 49 8 163) (mkPtok 29 "f64" 49 8 163)) (mkPtok 29 "f64" 49 8 163))) (mkPtok 42 "leaves" 49 12 164) None (mkPtok 40 "," 49 19 165)))] (mkPtok 3 "}" 50 4 166)) (mkPtok 40 "," 50 6 167))); (mkFieldWithAttr (mkSpan (mkPtok 27 "int64" 51 4 169) (mkPtok 40 "," 51 13 171)) [] (MetaField (mkSpan (mkPtok 27 "int64" 51 4 169) (mkPtok 40 "," 51 13 171)) None (mkMetaDecl (mkSpan (mkPtok 27 "int64" 51 4 169) (mkPtok 40 "," 51 13 171)) (TyBasic (mkSpan (mkPtok 27 "int64" 51 4 169) (mkPtok 27 "int64" 51 4 169)) (mkBasicType (mkSpan (mkPtok 27 "int64" 51 4 169) (mkPtok 27 "int64" 51 4 169)) (mkPtok 27 "int64" 51 4 169))) (mkPtok 42 "ts" 51 10 170) None (mkPtok 40 "," 51 13 171)))); (mkFieldWithAttr (mkSpan (mkPtok 42 "crc" 52 4 172) (mkPtok 40 "," 52 35 176)) [] (CheckSumField (mkSpan (mkPtok 42 "crc" 52 4 172) (mkPtok 40 "," 52 35 176)) (mkChecksumFieldDecl (mkSpan (mkPtok 42 "crc" 52 4 172) (mkPtok 40 "," 52 35 176)) None (mkPtok 42 "crc" 52 4 172) (mkCalculatedFrom (mkSpan (mkPtok 5 "@calculatedFrom(" 52 8 173) (mkPtok 6 ")" 52 33 175)) (mkPtok 5 "@calculatedFrom(" 52 8 173) (mkPtok 31 """CRC16""" 52 25 174) (mkPtok 6 ")" 52 33 175)) None (mkPtok 40 "," 52 35 176))))] (mkPtok 3 "}" 53 0 177))); (DOption (mkOptionDef (mkSpan (mkPtok 1 "options" 54 0 178) (mkPtok 3 "}" 57 0 188)) (mkPtok 1 "options" 54 0 178) (mkPtok 2 "{" 54 8 179) [(mkOptionDecl (mkSpan (mkPtok 42 "ArrayPrefixLenType" 55 4 180) (mkPtok 41 ";" 55 29 183)) (mkPtok 42 "ArrayPrefixLenType" 55 4 180) (mkPtok 4 "=" 55 23 181) (VType (mkSpan (mkPtok 22 "u32" 55 25 182) (mkPtok 22 "u32" 55 25 182)) (TyBasic (mkSpan (mkPtok 22 "u32" 55 25 182) (mkPtok 22 "u32" 55 25 182)) (mkBasicType (mkSpan (mkPtok 22 "u32" 55 25 182) (mkPtok 22 "u32" 55 25 182)) (mkPtok 22 "u32" 55 25 182)))) (Some (mkPtok 41 ";" 55 29 183))); (mkOptionDecl (mkSpan (mkPtok 42 "FixedStringPadChar" 56 4 184) (mkPtok 41 ";" 56 29 187)) (mkPtok 42 "FixedStringPadChar" 56 4 184) (mkPtok 4 "=" 56 23 185) (VPaddingChar (mkSpan (mkPtok 33 "'0'" 56 25 186) (mkPtok 33 "'0'" 56 25 186)) (mkPtok 33 "'0'" 56 25 186)) (Some (mkPtok 41 ";" 56 29 187)))] (mkPtok 3 "}" 57 0 188)))]).
-Eval vm_compute in ("<<<W218_alias_short>>>" ++ sh_escaped (render (rw_alias_short t218)) "").
-Eval vm_compute in ("<<<W218_alias_long>>>" ++ sh_escaped (render (rw_alias_long t218)) "").
-Eval vm_compute in ("<<<W218_alias_long_opts>>>" ++ sh_escaped (render (rw_alias_long_opts t218)) "").
-Eval vm_compute in ("<<<W218_zchar>>>" ++ sh_escaped (render (rw_zchar t218)) "").
-Eval vm_compute in ("<<<W218_drop_default_pad>>>" ++ sh_escaped (render (rw_drop_default_pad t218)) "").
-Eval vm_compute in ("<<<W218_add_default_pad>>>" ++ sh_escaped (render (rw_add_default_pad t218)) "").
-Eval vm_compute in ("<<<W218_prefix_attr>>>" ++ sh_escaped (render (rw_prefix_attr t218)) "").
-Eval vm_compute in ("<<<W218_default_options>>>" ++ sh_escaped (render (rw_default_options t218)) "").
-Eval vm_compute in ("<<<W218_expand_keys>>>" ++ sh_escaped (render (rw_expand_keys t218)) "").
-Eval vm_compute in ("<<<W218_inline_meta>>>" ++ sh_escaped (render (rw_inline_meta t218)) "").
-Eval vm_compute in ("<<<W218_seps_all>>>" ++ sh_escaped (render (rw_seps_all t218)) "").
-Eval vm_compute in ("<<<W218_seps_none>>>" ++ sh_escaped (render (rw_seps_none t218)) "").
-Eval vm_compute in ("<<<W218_drop_docs>>>" ++ sh_escaped (render (rw_drop_docs t218)) "").
+Definition t51 : pt := (mkPacket (mkPtok 1 "options" 1 0 0) (Some (mkPtok 3 "}" 1 113 33)) [(DOption (mkOptionDef (mkSpan (mkPtok 1 "options" 1 0 0) (mkPtok 3 "}" 1 41 6)) (mkPtok 1 "options" 1 0 0) (mkPtok 2 "{" 1 8 1) [(mkOptionDecl (mkSpan (mkPtok 42 "FixedStringPadFromLeft" 1 10 2) (mkPtok 41 ";" 1 39 5)) (mkPtok 42 "FixedStringPadFromLeft" 1 10 2) (mkPtok 4 "=" 1 33 3) (VTrue (mkSpan (mkPtok 10 "true" 1 35 4) (mkPtok 10 "true" 1 35 4)) (mkPtok 10 "true" 1 35 4)) (Some (mkPtok 41 ";" 1 39 5)))] (mkPtok 3 "}" 1 41 6))); (DPacket (mkPacketDef (mkSpan (mkPtok 35 "packet" 1 43 7) (mkPtok 3 "}" 1 65 15)) None (mkPtok 35 "packet" 1 43 7) (mkPtok 42 "B" 1 50 8) (mkPtok 2 "{" 1 52 9) [(mkFieldWithAttr (mkSpan (mkPtok 12 "char[" 1 54 10) (mkPtok 40 "," 1 63 14)) [] (MetaField (mkSpan (mkPtok 12 "char[" 1 54 10) (mkPtok 40 "," 1 63 14)) None (mkMetaDecl (mkSpan (mkPtok 12 "char[" 1 54 10) (mkPtok 40 "," 1 63 14)) (TyFixed (mkSpan (mkPtok 12 "char[" 1 54 10) (mkPtok 13 "]" 1 60 12)) (mkFixedString (mkSpan (mkPtok 12 "char[" 1 54 10) (mkPtok 13 "]" 1 60 12)) (mkPtok 12 "char[" 1 54 10) (mkPtok 30 "4" 1 59 11) (mkPtok 13 "]" 1 60 12))) (mkPtok 42 "x" 1 62 13) None (mkPtok 40 "," 1 63 14))))] (mkPtok 3 "}" 1 65 15))); (DPacket (mkPacketDef (mkSpan (mkPtok 34 "root" 1 67 16) (mkPtok 3 "}" 1 113 33)) (Some (mkPtok 34 "root" 1 67 16)) (mkPtok 35 "packet" 1 72 17) (mkPtok 42 "A" 1 79 18) (mkPtok 2 "{" 1 81 19) [(mkFieldWithAttr (mkSpan (mkPtok 20 "u8" 1 83 20) (mkPtok 40 "," 1 87 22)) [] (MetaField (mkSpan (mkPtok 20 "u8" 1 83 20) (mkPtok 40 "," 1 87 22)) None (mkMetaDecl (mkSpan (mkPtok 20 "u8" 1 83 20) (mkPtok 40 "," 1 87 22)) (TyBasic (mkSpan (mkPtok 20 "u8" 1 83 20) (mkPtok 20 "u8" 1 83 20)) (mkBasicType (mkSpan (mkPtok 20 "u8" 1 83 20) (mkPtok 20 "u8" 1 83 20)) (mkPtok 20 "u8" 1 83 20))) (mkPtok 42 "k" 1 86 21) None (mkPtok 40 "," 1 87 22)))); (mkFieldWithAttr (mkSpan (mkPtok 38 "match" 1 89 23) (mkPtok 40 "," 1 111 32)) [] (MatchField (mkSpan (mkPtok 38 "match" 1 89 23) (mkPtok 40 "," 1 111 32)) (mkMatchFieldDecl (mkSpan (mkPtok 38 "match" 1 89 23) (mkPtok 3 "}" 1 110 31)) (mkPtok 38 "match" 1 89 23) (mkPtok 42 "k" 1 95 24) (mkPtok 17 "as" 1 97 25) (mkPtok 42 "m" 1 100 26) (mkPtok 2 "{" 1 102 27) [(mkMatchPair (mkSpan (mkPtok 30 "1" 1 104 28) (mkPtok 42 "B" 1 108 30)) (MKDigits (mkPtok 30 "1" 1 104 28)) (mkPtok 39 ":" 1 106 29) (mkPtok 42 "B" 1 108 30) None)] (mkPtok 3 "}" 1 110 31)) (mkPtok 40 "," 1 111 32)))] (mkPtok 3 "}" 1 113 33)))]).
+Eval vm_compute in ("<<<W51_alias_short>>>" ++ sh_escaped (render (rw_alias_short t51)) "").
+Eval vm_compute in ("<<<W51_alias_long>>>" ++ sh_escaped (render (rw_alias_long t51)) "").
+Eval vm_compute in ("<<<W51_alias_long_opts>>>" ++ sh_escaped (render (rw_alias_long_opts t51)) "").
+Eval vm_compute in ("<<<W51_zchar>>>" ++ sh_escaped (render (rw_zchar t51)) "").
+Eval vm_compute in ("<<<W51_drop_default_pad>>>" ++ sh_escaped (render (rw_drop_default_pad t51)) "").
+Eval vm_compute in ("<<<W51_add_default_pad>>>" ++ sh_escaped (render (rw_add_default_pad t51)) "").
+Eval vm_compute in ("<<<W51_prefix_attr>>>" ++ sh_escaped (render (rw_prefix_attr t51)) "").
+Eval vm_compute in ("<<<W51_default_options>>>" ++ sh_escaped (render (rw_default_options t51)) "").
+Eval vm_compute in ("<<<W51_expand_keys>>>" ++ sh_escaped (render (rw_expand_keys t51)) "").
+Eval vm_compute in ("<<<W51_inline_meta>>>" ++ sh_escaped (render (rw_inline_meta t51)) "").
+Eval vm_compute in ("<<<W51_seps_all>>>" ++ sh_escaped (render (rw_seps_all t51)) "").
+Eval vm_compute in ("<<<W51_seps_none>>>" ++ sh_escaped (render (rw_seps_none t51)) "").
+Eval vm_compute in ("<<<W51_drop_docs>>>" ++ sh_escaped (render (rw_drop_docs t51)) "").
